@@ -73,14 +73,6 @@ Theorem C20_accessors_any_word : forall m w, In m MARKS ->
   shift_suit (mark m w) = shift_suit w.
 Proof. exact accessors_same. Qed.
 
-(* and what they read is the rank, suit, prime and characters of the card *)
-Theorem C20_reads : forall r s m, r < 13 -> s < 4 -> In m MARKS ->
-  let w := mark m (layout r s) in
-  get_card_rank w = rank_variant r /\ get_card_suit w = suit_variant s /\ get_rank_prime w = prime_of r /\
-  get_rank_char w = nthN RANK_CHARS r 0 /\ get_suit_char w = nthN SUIT_GLYPHS s 0 /\
-  get_suit_letter w = nthN SUIT_LETTERS s 0.
-Proof. exact card_reads. Qed.
-
 (* marking is idempotent (any word) *)
 Theorem C20_idempotent : forall w,
   flag_as_pair (flag_as_pair w) = flag_as_pair w /\
@@ -128,7 +120,6 @@ Print Assumptions C20_flags_seq.
 Print Assumptions C20_bits.
 Print Assumptions C20_accessors.
 Print Assumptions C20_accessors_any_word.
-Print Assumptions C20_reads.
 Print Assumptions C20_idempotent.
 Print Assumptions C20_strip.
 Print Assumptions C20_order.
